@@ -288,14 +288,4 @@ def _kf_f8(case, subcheck, detail):
         and subcheck in ('C01.energy', 'C01.members', 'C01.not_worse')
 
 
-def _kf_f49(case, subcheck, detail):
-    # Nelder-Mead with strict ranges: every re-decoration of the objective after generation 0 (any Set*, Finalize,
-    # a Step after a stop) rebuilds the simplex around the best vertex (_setSimplexWithinRangeBoundary) but keeps
-    # the old vertex energies
-    return (subcheck == 'C01.members' and case.get('solver') == 'NM' and bool(case.get('bounds'))
-            and (bool(case.get('reconfig')) or bool(case.get('resume'))) and isinstance(detail, dict)
-            and detail.get('member', 0) >= 1)
-
-
-KNOWN = {'F8-sum-reducer-counts-penalty-per-component': _kf_f8,
-         'F49-nm-simplex-reset-keeps-old-energies': _kf_f49}
+KNOWN = {'F8-sum-reducer-counts-penalty-per-component': _kf_f8}
